@@ -866,6 +866,11 @@ impl Session {
             buffer.len()
         );
 
+        // The buffer lock is held from the buffering decision until the bytes are on the
+        // transport, so frames reach the wire in the order in which they were accepted here
+        // (lock order: buffer -> writer; nothing takes the buffer lock while holding the writer).
+        let mut buf = self.buffer.lock().await;
+
         // Check if buffering
         if self.buffering.load(std::sync::atomic::Ordering::Relaxed) {
             tracing::trace!(
@@ -873,7 +878,6 @@ impl Session {
                 frame_cmd,
                 frame_stream_id
             );
-            let mut buf = self.buffer.lock().await;
             let old_len = buf.len();
             buf.extend_from_slice(&buffer);
             tracing::debug!(
@@ -886,7 +890,6 @@ impl Session {
 
         // Flush buffer if any
         {
-            let mut buf = self.buffer.lock().await;
             if !buf.is_empty() {
                 let buffered_len = buf.len();
                 tracing::debug!(
@@ -924,7 +927,9 @@ impl Session {
         }
 
         // Write with padding if enabled
-        self.write_with_padding(buffer).await
+        let result = self.write_with_padding(buffer).await;
+        drop(buf);
+        result
     }
 
     /// Write buffer to connection with padding applied
